@@ -87,6 +87,12 @@ def check_spin_lock_primitive(ctx, rule):
     for (b, c) in cas:
         for (tb, has_t, empty_t) in util.option_test_edges(body, dg, c["dst"]["l"]):
             removed.add((tb, has_t))        # Result: "has value" = Ok = acquired
+    # `swap(true, >= Acquire)` answering false is an acquisition too (same primitive the flag-based stack uses)
+    for (b, c) in body.calls:
+        if c.get("f") == R.ATOMIC + "swap" and D.strip_casts(dg.expr(c["args"][1])) == ("const", 1) and D.strip_casts(dg.expr(c["args"][0]))[0] == "param" \
+                and ordering_of(body, c["args"][2]) in ORD_OK_ACQ:
+            for (tb, true_t, false_t) in util.bool_test_edges(body, dg, c["dst"]["l"], b):
+                removed.add((tb, false_t))
     seen = {0}; st = [0]
     while st:
         x = st.pop()
@@ -98,6 +104,6 @@ def check_spin_lock_primitive(ctx, rule):
            "lock() returns only through the success edge of one of its CAS attempts" if not escapes else
            "lock() can return on a path where no CAS(false -> true) succeeded: the caller enters the critical section without owning the lock, and its unlock() releases the real owner's")
     ub = Body(fx.fn(R.SPIN_UNLOCK)); ud = D.Dag(ub)
-    st_ = [(b, c) for (b, c) in ub.calls if c.get("f") == R.ATOMIC + "store"]
+    st_ = [(b, c) for (b, c) in ub.calls if c.get("f") in (R.ATOMIC + "store", R.ATOMIC + "swap")]
     ok = len(st_) == 1 and D.strip_casts(ud.expr(st_[0][1]["args"][1])) == ("const", 0) and ordering_of(ub, st_[0][1]["args"][2]) in ORD_OK_REL and util.on_every_return_path(ub, st_[0][0])
     ctx.ob(rule, f"{R.SPIN_UNLOCK}|store-false-release", ok, f"{ub.f['file']}:{ub.f['line']}", "unlock() stores false with >= Release on every path")
